@@ -40,6 +40,20 @@ func (s *yieldDB) Put(k, v []byte) error {
 	return s.Persister.Put(k, v)
 }
 
+func (s *yieldDB) Remove(k []byte) error {
+	runtime.Gosched()
+	if s.n.Add(1)%3 == 0 {
+		time.Sleep(20 * time.Microsecond)
+	}
+	return s.Persister.Remove(k)
+}
+
+func (s *yieldDB) Has(k []byte) error {
+	err := s.Persister.Has(k)
+	runtime.Gosched()
+	return err
+}
+
 func phaseStorageUnit(c *collector, rs int64, scale int) {
 	p := c.newPhase("storage-unit", rs, scale)
 	r := p.rng()
